@@ -232,10 +232,14 @@ func daysOfMonth(year, month int) int {
 }
 
 func (t *DateTime) AddDateSpan(val DateSpan) *DateTime {
-	result := ToElkDateTime(t.native.AddDate(0, 0, val.Days()))
+	return t.addMonthsAndDays(int(val.months), val.Days())
+}
+
+func (t *DateTime) addMonthsAndDays(months, days int) *DateTime {
+	result := ToElkDateTime(t.native.AddDate(0, 0, days))
 	oldDay := result.Day()
 
-	month := result.Month() + int(val.months)
+	month := result.Month() + months
 	year := result.Year() + month/12
 	month %= 12
 
@@ -286,7 +290,8 @@ func (t *DateTime) SubtractDateTimeSpan(val *DateTimeSpan) *DateTime {
 }
 
 func (t *DateTime) SubtractDateSpan(val DateSpan) *DateTime {
-	return t.AddDateSpan(val.Negate())
+	// negated as int: DateSpan.Negate wraps for the int32 minimum
+	return t.addMonthsAndDays(-int(val.months), -val.Days())
 }
 
 func (t *DateTime) SubtractTimeSpan(val TimeSpan) *DateTime {
